@@ -183,6 +183,12 @@ def confusable_groups():
         # (str() has a '.'): only such values take the scaling path
         [D('0.1234567891'), D('0.01234567891'), D('0.001234567891'),
          D('0.0001234567891'), D('0.2000000001'), D('0.02000000001')],
+        # more significant digits than the default decimal context holds
+        # (refused by the pinned encoder, setting sticky context flags on
+        # the way) next to ordinary prices
+        [D('1.2345678901234567890123456789012345'), D('19.99'),
+         D('123456789012345678901234567890.5'), D('0.10'),
+         D('0.1000000000000000000000000000000000001'), D('7.5')],
         [naive, naive.replace(tzinfo=UTC)],
         [{'a': 1}, {'a': True}, {'a': 1.0}],
         [[1, 0], [True, False], [1.0, 0.0]],
@@ -565,8 +571,12 @@ def build_catalogue(check, seed, size):
                 d = {'k': 'header', 'ch': 1, 'body_size': 3,
                      'props': {'timestamp': to_desc(ts_value(r)),
                                'headers': to_desc({'t': ts_value(r)})}}
-                if r.random() < 0.5:
+                c3 = r.random()
+                if c3 < 0.4:
                     add({'op': 'marshal', 'frame': d})
+                elif c3 < 0.6:
+                    # built once, held, and marshalled several times
+                    add({'op': 'construct', 'frame': d})
                 else:
                     data = _try_encode(d)
                     if data is not None:
@@ -789,7 +799,8 @@ def gen_trace(rng, check, population, tier, cat):
             if check == 'C15' and c < 0.22:
                 prog.append({'op': 'tz', 'zone': r.choice(ZONES)})
                 continue
-            if check in ('C16', 'C12') and c < 0.30 and prog:
+            if check in ('C16', 'C12', 'C15') and c < (
+                    0.30 if check != 'C15' else 0.34) and prog:
                 # caller-side actions on results still held
                 cands = [(tt, j) for tt in range(len(threads) + 1)
                          for j in range(len(threads[tt]) if tt < len(threads)
@@ -805,6 +816,16 @@ def gen_trace(rng, check, population, tier, cat):
                     ref = list(r.choice(cons if cons and r.random() < 0.6
                                         else cands))
                     c2 = r.random()
+                    if check == 'C15':
+                        # the held object is sent again (and again, maybe
+                        # under another zone)
+                        prog.append({'op': 'marshal_slot', 'ref': ref})
+                        if r.random() < 0.5:
+                            if r.random() < 0.5:
+                                prog.append({'op': 'tz',
+                                             'zone': r.choice(ZONES)})
+                            prog.append({'op': 'marshal_slot', 'ref': ref})
+                        continue
                     if c2 < (0.40 if check == 'C16' else 0.25):
                         prog.append({'op': 'mutate', 'ref': ref,
                                      'how': r.randrange(8)})
